@@ -61,6 +61,8 @@ impl Validator {
             .collect::<Vec<String>>();
         let mut visited_headers = HashSet::<String>::new();
         while let Some(key) = keys.pop() {
+            #[cfg(feature = "verif-hooks")]
+            crate::verif::point("link:key");
             if matches![
                 self.tlds.get(&key),
                 Some(ToplevelDefinition::Object(ToplevelInformationDefinition {
@@ -374,6 +376,21 @@ impl Validator {
         Ok(self.tlds.into_iter().fold(
             (Vec::<ToplevelDefinition>::new(), warnings),
             |(mut tlds, mut errors), (_, tld)| {
+                #[cfg(feature = "verif-hooks")]
+                {
+                    crate::verif::point("validate:tld");
+                    if crate::verif::buggify("validate", tld.name()) {
+                        errors.push(
+                            LinkerError::new(
+                                Some(tld.name().clone()),
+                                "verif-hooks: injected validation failure",
+                                LinkerErrorType::Unknown,
+                            )
+                            .into(),
+                        );
+                        return (tlds, errors);
+                    }
+                }
                 match tld.validate() {
                     Ok(_) => tlds.push(tld),
                     Err(e) => errors.push(e.into()),
